@@ -30,9 +30,12 @@ Methods == << <<"F", "full aperture_method">>, <<"B", "SPECAN method">> >>
 Pols    == <<"HH", "HV", "VH", "VV">>
 
 \* near-miss codes per slot: right shape, not in the table (and one of the wrong shape)
-BadMode   == <<"XBS", "WBX", "wbd", "WB">>
+\* every beam x bandwidth x polarisation letter combination the table does NOT list (e.g. spotlight dual "SBD", ultra-fine quad "UBQ"):
+\* the closest possible near-misses, plus wrong letters / case / length
+BadModeSet == ({ a \o b \o c : a \in {"S", "U", "H", "F", "W", "V"}, b \in {"B", "W"}, c \in {"S", "D", "Q"} } \ { Modes[i][1] : i \in 1..Len(Modes) })
+              \cup {"XBS", "WBX", "wbd", "WB"}
+BadLevelSet == ({ a \o "." \o b : a \in {"1", "2", "3"}, b \in {"0", "1", "5"} } \ { Levels[i][1] : i \in 1..Len(Levels) }) \cup {"1.6", "3.5", "1,1", "11"}
 BadLook   == <<"X", "l">>
-BadLevel  == <<"1.6", "2.1", "3.0", "3.5", "1,1", "11">>
 BadOption == <<"X", "g">>
 BadProj   == <<"X", "u", "Q">>
 BadOrbit  == <<"X", "a">>
@@ -53,8 +56,8 @@ AllSlots == [mode : ToSet(Codes(Modes)), look : ToSet(Codes(Looks)), level : ToS
              proj : ToSet(Codes(Projs)), orbit : ToSet(Codes(Orbits))]
 Default == [mode |-> "WBD", look |-> "R", level |-> "1.5", option |-> "G", proj |-> "U", orbit |-> "D"]
 \* one slot off at a time
-NearMisses == { [Default EXCEPT !.mode = x] : x \in ToSet(BadMode) } \cup { [Default EXCEPT !.look = x] : x \in ToSet(BadLook) }
-         \cup { [Default EXCEPT !.level = x] : x \in ToSet(BadLevel) } \cup { [Default EXCEPT !.option = x] : x \in ToSet(BadOption) }
+NearMisses == { [Default EXCEPT !.mode = x] : x \in BadModeSet } \cup { [Default EXCEPT !.look = x] : x \in ToSet(BadLook) }
+         \cup { [Default EXCEPT !.level = x] : x \in BadLevelSet } \cup { [Default EXCEPT !.option = x] : x \in ToSet(BadOption) }
          \cup { [Default EXCEPT !.proj = x] : x \in ToSet(BadProj) } \cup { [Default EXCEPT !.orbit = x] : x \in ToSet(BadOrbit) }
 
 Scans == {""} \cup { m \o d : m \in {"B", "F"}, d \in {"0", "1", "2", "3", "4", "5", "6", "7", "8", "9"} }
